@@ -241,7 +241,12 @@ TFinal ==
            v5 == IF ended = "none" THEN <<V("harness_no_drop_event", -1, 0)>> ELSE <<>>
            v6 == IF ended = "aborted" /\ held = {}
                  THEN <<V("drop_aborted_without_gap", -1, 0)>> ELSE <<>>
-       IN /\ viol' = viol \o v1 \o v2 \o v3 \o v4 \o v5 \o v6
+           \* runs over a real backend (RocksDB / Fjall: no commit log to look at, every batch submitted): only the
+           \* final content, read from the reopened store, against the sequential fold in creation order
+           nolog == "nolog" \in DOMAIN Ev /\ Ev.nolog
+           w3 == IF Locked /\ content # Live(RefFold(<<>>, 0, MaxId))
+                 THEN <<V("final_content", -1, Cardinality((content \ Live(RefFold(<<>>, 0, MaxId))) \cup (Live(RefFold(<<>>, 0, MaxId)) \ content)))>> ELSE <<>>
+       IN /\ viol' = IF nolog THEN viol \o w3 \o v5 ELSE viol \o v1 \o v2 \o v3 \o v4 \o v5 \o v6
           /\ stats' = Bump(Bump(Bump(stats, "held_back", Cardinality(held)),
                           "empty_submitted", Cardinality(SubmittedEmpties)), "empty_groups", emptyG)
     /\ UNCHANGED <<run, bs, committed, db, ended, lazy, emptyG>>
